@@ -235,6 +235,12 @@ impl Scenario for Segments {
                 }
             }
         }
+        // the same session with the stream ending at every offset: what arrived completely before
+        // the end is acted on as in the unsegmented run, nothing after it, and the connection ends
+        // with UnexpectedSocketClose
+        for k in 0..SEGMENTS_STREAM_LEN {
+            v.push(json!({"cuts": [], "eof_at": k}));
+        }
         // a second, short session: the server closes the connection right behind OpenOk (three
         // frames in one burst whose order matters)
         v.push(json!({"cuts": [], "closing": true}));
@@ -274,6 +280,9 @@ impl Scenario for Segments {
         let mut cfg = EnvConfig::default();
         cfg.time = false;
         cfg.force_cuts = p["cuts"].as_array().unwrap().iter().map(|x| x.as_u64().unwrap() as usize).collect();
+        if let Some(k) = p["eof_at"].as_u64() {
+            cfg.crash_after_inbound = Some((k as usize, vh::sim::world::FaultKind::ReadEof));
+        }
         Built {
             broker: Box::new(broker),
             cfg,
@@ -358,6 +367,26 @@ impl Scenario for Segments {
         // the blocked notice arrived before the listener existed (it sits right behind OpenOk): it
         // is discarded; the listener sees nothing
         let got: Vec<String> = main.iter().filter(|l| !l.starts_with("blocked notices")).cloned().collect();
+        if let Some(k) = p["eof_at"].as_u64() {
+            if got == want {
+                // only possible if the whole stream, CloseOk included, arrived before the end
+                if (k as usize) < o.inbound.len() || !o.fault_injected && o.inbound_delivered < o.inbound.len() {
+                    v.push(("segments:end-of-stream-ignored".into(), format!("the stream ended after {} of {} bytes, yet the session ran as if it had not", k, o.inbound.len())));
+                }
+                return v;
+            }
+            let i = got.iter().zip(want.iter()).position(|(g, w)| g != w).unwrap_or(got.len().min(want.len()));
+            let is_err = |l: &String| l.contains("Err(") || l.contains("disconnected") || l.starts_with("consumer ");
+            if let Some(bad) = got[i..].iter().find(|l| !is_err(l)) {
+                v.push(("segments:acted-after-end-of-stream".into(), format!("stream ended at {}: after the first failing call the session still observed `{}`; log {:?}", k, bad, got)));
+            }
+            let last = got.last().cloned().unwrap_or_default();
+            let ok_last = last == "close -> Err(UnexpectedSocketClose)" || last == "open -> Err(UnexpectedSocketClose)" || last == "open -> Err(InvalidCredentials)";
+            if !ok_last {
+                v.push(("segments:end-of-stream-cause".into(), format!("stream ended at {}: the session ends with `{}` (expected UnexpectedSocketClose; InvalidCredentials while waiting for Tune); log {:?}", k, last, got)));
+            }
+            return v;
+        }
         if got != want {
             v.push(("segments:observations-differ".into(), format!("server stream cut at {:?}: observed {:?}\n the unsegmented run gives {:?}", p["cuts"], got, want)));
         }
@@ -383,6 +412,7 @@ impl Scenario for ConsumerLife {
         vec![
             json!({"how": "cancel-twice"}),
             json!({"how": "drop"}),
+            json!({"how": "drop-unwinding"}),
             json!({"how": "forget-close"}),
             json!({"how": "cancel-held"}),
             json!({"how": "server-cancel", "nowait": false}),
@@ -449,6 +479,20 @@ impl Scenario for ConsumerLife {
                     }
                 };
                 let rx = consumer.receiver().clone();
+                if how == "drop-unwinding" {
+                    // the consumer goes out of scope because the code holding it panics
+                    let r = std::panic::catch_unwind(std::panic::AssertUnwindSafe(move || {
+                        let _held = consumer;
+                        panic!("worker failed");
+                    }));
+                    ctx.log(format!("worker panicked: {}", r.is_err()));
+                    drain_consumer(&ctx, "consumer", &rx);
+                    let r = ch.close();
+                    ctx.log(format!("chclose -> {}", res(&r)));
+                    let r = conn.close();
+                    ctx.log(format!("close -> {}", res(&r)));
+                    return;
+                }
                 match how.as_str() {
                     "cancel-twice" | "cancel-held" => {
                         // take one delivery first
@@ -503,7 +547,7 @@ impl Scenario for ConsumerLife {
         let disconnected = main.iter().any(|l| l == "consumer disconnected");
         let (deliveries, rest): (Vec<&String>, Vec<&String>) = msgs.iter().partition(|m| m.starts_with("Delivery"));
         let terminal = match how {
-            "cancel-twice" | "drop" | "cancel-held" => "ClientCancelled",
+            "cancel-twice" | "drop" | "drop-unwinding" | "cancel-held" => "ClientCancelled",
             "forget-close" => "ClientClosedChannel",
             "server-cancel" => "ServerCancelled",
             _ => "ClientClosedConnection",
@@ -549,7 +593,7 @@ impl Scenario for ConsumerLife {
         let cancels = envs.iter().filter(|e| e.chan == 1 && is_method(e, 60, 30)).count();
         let cancel_oks = envs.iter().filter(|e| e.chan == 1 && is_method(e, 60, 31)).count();
         let want_cancels = match how {
-            "cancel-twice" | "drop" | "cancel-held" | "server-cancel" => 1,
+            "cancel-twice" | "drop" | "drop-unwinding" | "cancel-held" | "server-cancel" => 1,
             _ => 0,
         };
         // (whether a cancel of a consumer the server has already cancelled still goes to the
@@ -763,8 +807,8 @@ impl Scenario for Listeners {
         "C13"
     }
     fn variants(&self, _tier: &str) -> Vec<Value> {
-        // flood: listeners that are not read while 40 confirms and 40 returned messages arrive
-        vec![json!({"drop_second": false}), json!({"drop_second": true}), json!({"flood": 40})]
+        // flood: listeners that are not read while 300 confirms and 300 returned messages arrive
+        vec![json!({"drop_second": false}), json!({"drop_second": true}), json!({"flood": 300})]
     }
     fn bound(&self, tier: &str, p: &Value) -> usize {
         if p["flood"].is_u64() {
@@ -1070,7 +1114,7 @@ fn flood_listeners(k: usize) -> Built {
     for i in 0..k {
         frames.push(AMQPFrame::Method(1, AMQPClass::Basic(basic::AMQPMethod::Return(basic::Return { reply_code: 312, reply_text: "NO_ROUTE".into(), exchange: "x".into(), routing_key: format!("k{}", i) }))));
         frames.push(header(1, 1, false));
-        frames.push(body(1, &[i as u8]));
+        frames.push(body(1, &[(i % 251) as u8]));
     }
     // offered once confirm.select (request 2 of channel 1) was seen
     broker.pushes.push(Push::new("returns", frames).when_channel(1, 2));
@@ -1092,7 +1136,7 @@ fn flood_listeners(k: usize) -> Built {
             let returns = ch.listen_for_returns().expect("listen returns");
             ch.enable_publisher_confirms().expect("confirm.select");
             for i in 0..k {
-                ch.basic_publish("", Publish::new(&[i as u8], "k")).expect("publish");
+                ch.basic_publish("", Publish::new(&[(i % 251) as u8], "k")).expect("publish");
             }
             // virtual time passes only when nothing else can happen: all acks and the push are in
             ctx.sleep_ms(10);
@@ -1106,7 +1150,7 @@ fn flood_listeners(k: usize) -> Built {
                 .collect();
             ctx.log(format!("confirms {:?}", got));
             let rets: Vec<amiquip::Return> = returns.try_iter().collect();
-            let in_order = rets.iter().enumerate().all(|(i, r)| r.routing_key == format!("k{}", i) && r.content == vec![i as u8]);
+            let in_order = rets.iter().enumerate().all(|(i, r)| r.routing_key == format!("k{}", i) && r.content == vec![(i % 251) as u8]);
             ctx.log(format!("returns {} in order {}", rets.len(), in_order));
             ctx.forget(ch);
             let r = conn.close();
